@@ -6,6 +6,7 @@ From ChiaV.Cond Require Import Model Spec Facts.
 Open Scope N_scope.
 From ChiaV.Cond Require Import Invariants Syntax Collect Rules Refine.
 From ChiaV.Cond Require Import Guards Accept Totals Final.
+From ChiaV.Cond Require Import Local LocalRules Declarative.
 From ChiaV.Props Require Import C01.
 Check C01_opcodes_are_consensus :
   [REMARK; AGG_SIG_PARENT; AGG_SIG_PUZZLE; AGG_SIG_AMOUNT; AGG_SIG_PUZZLE_AMOUNT; AGG_SIG_PARENT_AMOUNT;
@@ -68,3 +69,15 @@ Check C01_step_guard_complete :
   forall vk K fl st cva,
   aguard vk K fl (acore_of st) cva = true -> exists st', apply_condition vk K fl st cva = Ok st'.
 Print Assumptions C01_step_guard_complete.
+Check C01_accept_iff_rules :
+  forall vk H K fl V t max_cost clvm_cost,
+  (exists r, parse_spends vk H K fl V t max_cost clvm_cost = Ok r) <->
+  exists ps,
+    tree_syntax fl t = Ok ps /\
+    NoDup (map (pid H) ps) /\
+    (f_limit_spends fl = true -> N.of_nat (length ps) <= MAX_SPENDS_PER_BLOCK) /\
+    total_cost fl ps <= max_cost /\
+    tot_fee ps < 2 ^ 64 /\
+    Forall (LocalRules vk K fl H) ps /\
+    BundleRules H ps.
+Print Assumptions C01_accept_iff_rules.
